@@ -5,11 +5,13 @@
 // case header: pool=<n>   (informative)
 // ops:
 //
-//	det <id> <rate>                 two independently constructed DeterministicSamplers (A: struct + Start,
-//	                                B: through SamplerFactory.GetSamplerImplementationForKey) asked about id
+//	det <id> <rate>                 two independently constructed DeterministicSamplers asked about id:
+//	                                A: struct + Start, one instance per (case, rate) that lives for the whole case
+//	                                   (so it has answered other questions before),
+//	                                B: a fresh one through SamplerFactory.GetSamplerImplementationForKey
 //	   ext sha1 <id> = <h>          big-endian uint32 of sha1(id ++ shardingSalt)[:4], salt = the package's constant
 //	   obs A <keep> <rate> <reason> B <keep> <rate> <reason>      (or `panic-div0` in place of the triple)
-//	stress <id> <rate>              two StressRelief instances after UpdateFromConfig
+//	stress <id> <rate>              two StressRelief instances after UpdateFromConfig (A per (case, rate), B fresh)
 //	   ext wyhash <id> = <h>        wyhash.Hash(id, hashSeed), seed = the package's constant
 //	frac det|stress <seed> <n> <rate>   n pseudo-random 32-hex trace IDs derived from seed
 //	   ext hashes = h1,h2,…
@@ -191,6 +193,10 @@ func (comp) Gen(r *kit.Rng, maxLen int, tier string) kit.Case {
 	n := 4 + r.Intn(maxLen)
 	var ops []string
 	for i := 0; i < n; i++ {
+		if len(ops) > 0 && r.Chance(10) { // the same question again, later in the case
+			ops = append(ops, ops[r.Intn(len(ops))])
+			continue
+		}
 		id := ids[r.Intn(np)]
 		if r.Chance(62) {
 			ops = append(ops, fmt.Sprintf("det %s %d", kit.Enc(id), genDetRate(r, sha1h(id))))
@@ -271,9 +277,33 @@ func fmtDec(rate uint, keep bool, reason string) string {
 	return fmt.Sprintf("%t %d %s", keep, rate, kit.Enc(reason))
 }
 
-type runner struct{}
+type runner struct {
+	det    map[int]sample.Sampler
+	stress map[uint64]*collect.StressRelief
+}
 
-func (comp) NewCase(h []string) kit.Runner { return &runner{} }
+func (comp) NewCase(h []string) kit.Runner {
+	return &runner{det: map[int]sample.Sampler{}, stress: map[uint64]*collect.StressRelief{}}
+}
+
+// long-lived instance per (case, rate)
+func (r *runner) detA(rate int) sample.Sampler {
+	if s, ok := r.det[rate]; ok {
+		return s
+	}
+	s := newDetDirect(rate)
+	r.det[rate] = s
+	return s
+}
+
+func (r *runner) stressA(rate uint64) *collect.StressRelief {
+	if s, ok := r.stress[rate]; ok {
+		return s
+	}
+	s := newStress(rate)
+	r.stress[rate] = s
+	return s
+}
 
 func fracIDs(seed uint64, n int) []string {
 	r := kit.NewRng(seed)
@@ -284,7 +314,7 @@ func fracIDs(seed uint64, n int) []string {
 	return ids
 }
 
-func (*runner) Do(op []string) (string, bool) {
+func (rn *runner) Do(op []string) (string, bool) {
 	switch op[0] {
 	case "det":
 		if len(op) != 3 {
@@ -304,7 +334,7 @@ func (*runner) Do(op []string) (string, bool) {
 				return fmtDec(r, keep, reason)
 			})
 		}
-		return "A " + ask(newDetDirect) + " B " + ask(newDetFactory), true
+		return "A " + ask(rn.detA) + " B " + ask(newDetFactory), true
 	case "stress":
 		if len(op) != 3 {
 			return "bad-op", true
@@ -315,14 +345,14 @@ func (*runner) Do(op []string) (string, bool) {
 			return "bad-op", true
 		}
 		kit.Ext("wyhash %s = %d", op[1], wyh(id))
-		ask := func() string {
+		ask := func(mk func(uint64) *collect.StressRelief) string {
 			return catch(func() string {
-				s := newStress(rate)
+				s := mk(rate)
 				r, keep, reason := s.GetSampleRate(id)
 				return fmtDec(r, keep, reason)
 			})
 		}
-		return "A " + ask() + " B " + ask(), true
+		return "A " + ask(rn.stressA) + " B " + ask(newStress), true
 	case "frac":
 		if len(op) != 5 {
 			return "bad-op", true
@@ -348,7 +378,7 @@ func (*runner) Do(op []string) (string, bool) {
 				return catch(func() string {
 					var s sample.Sampler
 					if inst == 0 {
-						s = newDetDirect(int(rate64))
+						s = rn.detA(int(rate64))
 					} else {
 						s = newDetFactory(int(rate64))
 					}
@@ -369,9 +399,12 @@ func (*runner) Do(op []string) (string, bool) {
 			for i, id := range ids {
 				hs[i] = strconv.FormatUint(wyh(id), 10)
 			}
-			count = func(int) string {
+			count = func(inst int) string {
 				return catch(func() string {
 					s := newStress(rate)
+					if inst == 0 {
+						s = rn.stressA(rate)
+					}
 					k := 0
 					for _, id := range ids {
 						if _, keep, _ := s.GetSampleRate(id); keep {
